@@ -31,6 +31,7 @@ def run_drivers(spec, res, scratch, tier, seed, only=None, replay_inputs=None, n
     for drv in spec.get("drivers", []):
         if only and drv["name"] != only:
             continue
+        drv["_tags"] = [t.lower() for t in spec.get("overlay_tags", [spec["prop"]])]
         bins = spec.setdefault("_bins", {})
         binary = bins.get((drv["kind"], drv["pkg"]))
         if binary is None:
